@@ -133,7 +133,9 @@ def judge_trig(fa, part, dtname, x):
         import math
 
         aerr = abs(fr(r) + fr(tt) - rem)
-        tiny = "abserr=2^%d" % math.floor(math.log2(float(aerr))) if aerr else "abserr=0"
+        eb = math.floor(math.log2(float(aerr))) if aerr else -10**6
+        B = {"float16": -11, "float32": -28, "float64": -70}[dtname]
+        tiny = f"abserr<2^{B + 1}" if eb <= B else f"abserr=2^{eb}"
         add_violation(part, f"trig:{dtname}:remainder>{lim}ulp:{tiny}", f"x={x!r}: k={k!r} r+t={float(fr(r) + fr(tt))!r} true remainder {float(rem)!r}: {d} ULP", case)
     if N != 0:
         part["nontrivial"] += 1
